@@ -296,6 +296,8 @@ def coq_eval_mismatches(ctx, name, imports, ty, chk, case_terms, timeout=1500, s
     GEN.mkdir(exist_ok=True)
     bad = []
     procs = []
+    maxpar = int(os.environ.get("VERIF_COQ_PAR", "6"))
+    files = []
     for k in range(0, len(case_terms), shard):
         part = case_terms[k:k + shard]
         f = GEN / f"cases_{name}_{k // shard}.v"
@@ -305,8 +307,22 @@ def coq_eval_mismatches(ctx, name, imports, ty, chk, case_terms, timeout=1500, s
                 f"Definition M := Eval vm_compute in mismatches ({chk}) cases.",
                 "Print M."]
         f.write_text("\n".join(body) + "\n")
-        procs.append((k, f, subprocess.Popen(["timeout", str(timeout), "coqc", "-Q", ".", "Miller", str(f)],
-                                             cwd=COQ, stdout=subprocess.PIPE, stderr=subprocess.PIPE, text=True)))
+        files.append((k, f))
+    from concurrent.futures import ThreadPoolExecutor
+
+    class Done:
+        def __init__(s, rc, out, err):
+            s.returncode, s._o, s._e = rc, out, err
+
+        def communicate(s):
+            return s._o, s._e
+
+    def runone(kf):
+        k, f = kf
+        rc, out, err = sh(["timeout", str(timeout), "coqc", "-Q", ".", "Miller", str(f)], cwd=COQ, timeout=timeout + 30)
+        return (k, f, Done(rc, out, err))
+    with ThreadPoolExecutor(max_workers=maxpar) as ex:
+        procs = list(ex.map(runone, files))
     err_all = ""
     for k, f, p in procs:
         out, err = p.communicate()
